@@ -167,8 +167,11 @@ def temperature_arg(spec):
 _REAL = {}
 
 
-def real_backend(kind):
-    """the pycalphad-backed thermodynamics of kawin's own test data (one object per process)"""
+def real_backend(kind, fresh=False):
+    """the pycalphad-backed thermodynamics of kawin's own test data (one object per process; [fresh]: a new object, so
+    that nothing a previous run left in the backend - caches, last valid curvature terms - can serve as a fall-back)"""
+    if fresh:
+        _REAL.pop(kind, None)
     if kind not in _REAL:
         from kawin.tests.datasets import ALZR_TDB, NICRAL_TDB
         from kawin.thermo import BinaryThermodynamics, MulticomponentThermodynamics
@@ -184,34 +187,55 @@ def real_backend(kind):
     return _REAL[kind]
 
 
+def _conv(value, how):
+    """the same number(s) in another admissible Python / numpy representation (calling conventions of the public setters)"""
+    if how in (None, 'plain'):
+        return value
+    if isinstance(value, (list, tuple, np.ndarray)):
+        vals = [float(v) for v in value]
+        return {'tuple': tuple(vals), 'array': np.array(vals), 'npscalar': [np.float64(v) for v in vals], 'int': vals, 'zerod': np.array(vals)}[how]
+    v = float(value)
+    if how == 'int':
+        return int(v) if v == int(v) else v
+    return {'tuple': v, 'array': v, 'npscalar': np.float64(v), 'zerod': np.array(v)}[how]
+
+
 def build_model(cfg):
     from kawin.precipitation import PrecipitateModel, VolumeParameter
     sysk = cfg.get('sys', 'binary')
     phases = list(cfg['phases'])
+    elements = {'binary': ['B'], 'ternary': ['B', 'C'], 'alzr': ['ZR'], 'nicral': ['Al', 'Cr']}.get(sysk)
+    if elements is None:
+        raise ValueError(sysk)
+    if cfg.get('names'):
+        # parameter-object constructor; the display (output) name of a precipitate differs from its database phase name
+        from kawin.precipitation import PrecipitateParameters, MatrixParameters
+        pps = [PrecipitateParameters(str(nm), phase=ph) for nm, ph in zip(cfg['names'], phases)]
+        m = PrecipitateModel(matrixParameters=MatrixParameters(elements), precipitateParameters=pps)
+    else:
+        m = PrecipitateModel(phases=phases, elements=elements)
     if sysk == 'binary':
-        m = PrecipitateModel(phases=phases, elements=['B'])
         backend = StubBinaryC(phases)
     elif sysk == 'ternary':
-        m = PrecipitateModel(phases=phases, elements=['B', 'C'])
         backend = StubTernary(phases)
-    elif sysk == 'alzr':
-        m = PrecipitateModel(phases=phases, elements=['ZR'])
-        backend = real_backend('alzr')
-    elif sysk == 'nicral':
-        m = PrecipitateModel(phases=phases, elements=['Al', 'Cr'])
-        backend = real_backend('nicral')
     else:
-        raise ValueError(sysk)
+        backend = real_backend(sysk, fresh=bool(cfg.get('eqfaults') or cfg.get('fresh_backend')))
+    conv = cfg.get('conv')
     cmin, cmax, nb, minb, maxb = cfg.get('bins', (1e-10, 1e-8, 75, 50, 100))
     m.setPBMParameters(cMin=cmin, cMax=cmax, bins=int(nb), minBins=int(minb), maxBins=int(maxb), adaptive=bool(cfg.get('adaptive', True)))
-    m.setInitialComposition(cfg['x0'] if sysk in ('binary', 'alzr') else list(cfg['x0']))
+    m.setInitialComposition(_conv(cfg['x0'], conv) if sysk in ('binary', 'alzr') else _conv(list(cfg['x0']), conv))
     with contextlib.redirect_stdout(io.StringIO()):
-        m.setTemperature(*temperature_arg(cfg['T']))
+        targ = temperature_arg(cfg['T'])
+        if len(targ) == 1 and not callable(targ[0]):
+            targ = (_conv(targ[0], conv),)
+        elif len(targ) == 2:
+            targ = (_conv(targ[0], conv if conv in ('tuple', 'array') else None), _conv(targ[1], conv if conv in ('tuple', 'array', 'int') else None))
+        m.setTemperature(*targ)
     a = float(cfg.get('lattice', 0.4e-9))
     m.setVolumeAlpha(a ** 3, VolumeParameter.ATOMIC_VOLUME, 4)
     vr = cfg.get('vratio', 1.0)
     for i, p in enumerate(phases):
-        m.setInterfacialEnergy(cfg['gammas'][i], phase=p)
+        m.setInterfacialEnergy(_conv(cfg['gammas'][i], conv if conv in ('npscalar', 'zerod') else None), phase=p)
         m.setVolumeBeta(a ** 3 / vr, VolumeParameter.ATOMIC_VOLUME, 4, phase=p)
         shape, ar = cfg.get('shapes', [('sphere', 1)] * len(phases))[i]
         if shape != 'sphere':
@@ -229,6 +253,23 @@ def build_model(cfg):
     if cfg.get('recordPSD'):
         m.setPSDrecording(True)
     fw = FaultWrap(backend, cfg.get('faults', ()))
+    # failures INSIDE the pycalphad-backed backend: the equilibrium routine that documents "return None if the equilibrium did not
+    # converge" gives no result at the listed calls (instance attribute on the harness's own backend object; skipped if the
+    # backend has no such routine)
+    fw.eq_calls, fw.eq_dropped = 0, 0
+    if cfg.get('eqfaults') and hasattr(backend, '_getCompositionSetsEq'):
+        drop = set(int(k) for k in cfg['eqfaults'])
+        orig = type(backend)._getCompositionSetsEq
+
+        def eqw(*a, **kw):
+            k = fw.eq_calls
+            fw.eq_calls += 1
+            if k in drop:
+                fw.eq_dropped += 1
+                return None
+            return orig(backend, *a, **kw)
+        backend._getCompositionSetsEq = eqw
+        fw._restore = lambda: backend.__dict__.pop('_getCompositionSetsEq', None)
     m.setThermodynamics(fw)
     return m, fw
 
@@ -642,6 +683,21 @@ def run_cfg(cfg, snapshots=False, keep_model=True):
                 rp = m.PBM[p]._recordedPSD
                 if rp is not None and (not np.isfinite(rp).all() or (rp < 0).any()):
                     res['issues'].append(('psd_nonneg', 'recorded PSD', 'recorded size distribution of phase %d has negative / non-finite entries' % p))
+        if hasattr(fw, '_restore'):
+            fw._restore()
+        res['eq_dropped'] = getattr(fw, 'eq_dropped', 0)
+        import hashlib as _h
+        hh = _h.sha1()
+        for k in NAMES16:
+            if hasattr(m.pData, k):
+                hh.update(np.ascontiguousarray(np.asarray(getattr(m.pData, k), dtype=float)).tobytes())
+        for p in range(len(m.phases)):
+            hh.update(np.ascontiguousarray(np.asarray(m.PBM[p].PSD, dtype=float)).tobytes())
+            hh.update(np.ascontiguousarray(np.asarray(m.PBM[p].PSDbounds, dtype=float)).tobytes())
+        res['digest'] = hh.hexdigest()
+        res['summary'] = {'n': int(m.pData.n), 't_end': float(m.pData.time[m.pData.n]),
+                          'volFrac_end': np.asarray(m.pData.volFrac[m.pData.n], dtype=float).tolist(),
+                          'density_end': np.asarray(m.pData.precipitateDensity[m.pData.n], dtype=float).tolist()}
         res['nontrivial'] = bool(np.any(np.nan_to_num(np.asarray(m.pData.precipitateDensity, dtype=float)) > 0))
         res['final'] = {'t': float(m.pData.time[m.pData.n]), 'n': int(m.pData.n),
                         'maxfv': float(np.nanmax(np.nan_to_num(np.asarray(m.pData.volFrac, dtype=float)))),
@@ -659,5 +715,80 @@ def run_cfg(cfg, snapshots=False, keep_model=True):
         if not keep_model:
             res.pop('model', None)
         return res
+    finally:
+        np.seterr(**old)
+
+
+# ------------------------------------------------------------------------------------------
+# histories on ONE object, and several objects alive in the same process
+def model_digest(m):
+    import hashlib
+    hh = hashlib.sha1()
+    for k in NAMES16:
+        if hasattr(m.pData, k):
+            hh.update(np.ascontiguousarray(np.asarray(getattr(m.pData, k), dtype=float)).tobytes())
+    for p in range(len(m.phases)):
+        hh.update(np.ascontiguousarray(np.asarray(m.PBM[p].PSD, dtype=float)).tobytes())
+        hh.update(np.ascontiguousarray(np.asarray(m.PBM[p].PSDbounds, dtype=float)).tobytes())
+    return hh.hexdigest(), {'n': int(m.pData.n), 't_end': float(m.pData.time[m.pData.n]),
+                            'volFrac_end': np.asarray(m.pData.volFrac[m.pData.n], dtype=float).tolist()}
+
+
+def _solve_segments(m, cfg, segs):
+    from kawin.solver.Iterators import ExplicitEulerIterator, RK4Iterator
+    it = ExplicitEulerIterator if cfg.get('iterator', 'euler') == 'euler' else RK4Iterator
+    with contextlib.redirect_stdout(io.StringIO()):
+        for seg in segs:
+            m.solve(float(seg), solverType=it, verbose=False, minDtFrac=float(cfg.get('minDtFrac', 1e-3)), maxDtFrac=float(cfg.get('maxDtFrac', 1.0)))
+
+
+def scenario(kind, cfgs):
+    """kind 'rerun': run, reset(), run again on the SAME object - both runs must give what a fresh object gives;
+       kind 'interleave': two objects advanced alternately, segment by segment - each must give what it gives alone.
+       returns list of (clause, cls, message) plus well-formedness issues; internal errors are reported as such"""
+    out = []
+    old = np.seterr(all='ignore')
+    try:
+        def fresh(c):
+            m, fw = build_model(c)
+            _solve_segments(m, c, c.get('segments', [10.0]))
+            return model_digest(m)
+        try:
+            if kind == 'rerun':
+                c = cfgs[0]
+                ref = fresh(c)
+                m, fw = build_model(c)
+                _solve_segments(m, c, c.get('segments', [10.0]))
+                d1 = model_digest(m)
+                m.reset()
+                _solve_segments(m, c, c.get('segments', [10.0]))
+                d2 = model_digest(m)
+                out += [(cl, cls, 'second run after reset(): ' + msg) for cl, cls, msg in check_state(m)]
+                if d1[0] != ref[0]:
+                    out.append(('history_independent', 'same configuration twice', 'two fresh objects with the same configuration differ: %r vs %r' % (ref[1], d1[1])))
+                # (the second run is NOT compared with the first: reset() re-creates the population balance models with their
+                #  default parameters, which is outside this property; it must be well formed, which is checked above)
+            else:
+                ca, cb = cfgs
+                ra, rb = fresh(ca), fresh(cb)
+                ma, _ = build_model(ca)
+                mb, _ = build_model(cb)
+                sa, sb = list(ca.get('segments', [10.0])), list(cb.get('segments', [10.0]))
+                for i in range(max(len(sa), len(sb))):
+                    if i < len(sa):
+                        _solve_segments(ma, ca, [sa[i]])
+                    if i < len(sb):
+                        _solve_segments(mb, cb, [sb[i]])
+                da, db = model_digest(ma), model_digest(mb)
+                out += [(cl, cls, 'interleaved object A: ' + msg) for cl, cls, msg in check_state(ma)]
+                out += [(cl, cls, 'interleaved object B: ' + msg) for cl, cls, msg in check_state(mb)]
+                if da[0] != ra[0]:
+                    out.append(('history_independent', 'two objects interleaved', 'object A advanced alternately with another object gives %r, alone %r' % (da[1], ra[1])))
+                if db[0] != rb[0]:
+                    out.append(('history_independent', 'two objects interleaved', 'object B advanced alternately with another object gives %r, alone %r' % (db[1], rb[1])))
+        except INTERNAL as e:
+            import sys
+            out.append(('no_internal_error', '%s in %s' % (type(e).__name__, where_of(sys.exc_info()[2])), 'scenario %s ended with %s: %s' % (kind, type(e).__name__, str(e)[:200])))
+        return out
     finally:
         np.seterr(**old)
